@@ -33,6 +33,9 @@ typedef struct rc_rel {
 typedef struct rc_state {
     int n;
     double complex v[RC_MAXN], i[RC_MAXN], a[RC_MAXN], b[RC_MAXN];
+    /* magnitude each quantity would have without any cancellation in the
+     * arithmetic that produced it (sum of absolute values of the terms) */
+    double mv[RC_MAXN], mi[RC_MAXN], ma[RC_MAXN], mb[RC_MAXN];
 } rc_state_t;
 
 typedef struct rc_result {
@@ -62,7 +65,10 @@ extern void rc_tuples(const rc_rel_t *rel, const rc_state_t *st,
  * columns of the n x n matrix drive[], row-major) must satisfy the output
  * relation.  cond = 1-norm condition number of the matrix of the output
  * relation's independent tuples over those states (the quantity a conversion
- * has to invert); decided only if cond <= cond_max.
+ * has to invert), each row measured against the magnitude it would have
+ * without cancellation -- a port quantity that only exists as a small
+ * difference of large terms counts as (nearly) dependent; decided only if
+ * cond <= cond_max.
  */
 extern void rc_check(const rc_rel_t *rin, const double complex *min,
 	const rc_rel_t *rout, const double complex *mout,
